@@ -151,6 +151,13 @@ def judge_sequenced(stream: list[dict], batch_size: int, flt: dict | None,
 def gen_case(rng: random.Random) -> tuple[list[dict], int, dict | None, dict]:
     names = rng.sample(["a", "b", "c d", "e", "A", "Orders", "orders"], rng.randint(1, 5))
     st = store.gen_store(rng, rng.randint(1, 12), names, ["A", "B", "C"], 12, hostile=False)
+    for t in st["traces"]:
+        if rng.random() < 0.25:
+            # coarse clock: all spans of the trace (so all siblings) start at the same instant
+            t0 = min(sp["start_timestamp"] for sp in t["spans"])
+            for sp in t["spans"]:
+                sp["end_timestamp"] = max(sp["end_timestamp"], t0)
+                sp["start_timestamp"] = t0
     order = rng.choice(["by-trace", "interleaved", "reversed", "shuffled", "shuffled"])
     stream = store.flatten(st, rng, order)
     if rng.random() < 0.3 and stream:      # duplicates must not be streamed twice either
@@ -186,6 +193,31 @@ def gen_case(rng: random.Random) -> tuple[list[dict], int, dict | None, dict]:
                             "crossed": meta_crossed[0]}
 
 
+def large_filter_case(rng: random.Random) -> tuple[list[dict], int, dict, dict]:
+    """One workflow with several hundred single-span traces and a filter that lists more ids
+    under one name than any bound-parameter / IN-list chunking a store might use."""
+    n = rng.choice([520, 640, 1010])
+    spans = []
+    for i in range(n):
+        jid = f"big-t{i:04d}"
+        spans.append({"job_name": "big wf", "job_id": jid, "event_type": "A",
+                      "event_id": jid + ".0", "start_timestamp": 10**15 + i,
+                      "end_timestamp": 10**15 + i + 5, "application_name": "app",
+                      "parent_event_id": None})
+    for i in range(5):
+        jid = f"other-t{i}"
+        spans.append({"job_name": "other", "job_id": jid, "event_type": "B",
+                      "event_id": jid + ".0", "start_timestamp": 10**15 + i,
+                      "end_timestamp": 10**15 + i + 5, "application_name": "app",
+                      "parent_event_id": None})
+    rng.shuffle(spans)
+    k = rng.choice([501, 601, n - 1, n])
+    ids = sorted(rng.sample([f"big-t{i:04d}" for i in range(n)], min(k, n)))
+    flt = {"big wf": ids, "other": ["other-t1"]}
+    return spans, rng.choice([3, 7, 1000]), flt, {"order": "shuffled", "traces": n + 5,
+                                                  "names": 2, "large_filter": len(ids)}
+
+
 def run_chunk(case: dict) -> dict:
     rng = random.Random(case["rng_seed"])
     counts: dict[str, int] = {}
@@ -196,7 +228,11 @@ def run_chunk(case: dict) -> dict:
     def bump(k: str, v: int = 1) -> None:
         counts[k] = counts.get(k, 0) + v
     for idx in range(case["count"]):
-        stream, b, flt, meta = gen_case(rng)
+        if idx == 5:
+            stream, b, flt, meta = large_filter_case(rng)
+            bump("large_filter_cases")
+        else:
+            stream, b, flt, meta = gen_case(rng)
         # an all-empty filter is falsy for the code under test (streams everything): the
         # statement speaks of "with or without a filter", so such a filter is "without"
         eff = flt if flt and any(flt.values()) else None
@@ -263,7 +299,9 @@ def main(tier: str, seed: int) -> int:
              "trace-wise / interleaved / reversed / shuffled (plus re-delivered duplicate "
              "spans), batch sizes {1,2,3,5,7,1000}; streamed without filter and with "
              "name->trace-id filters (subset per name, empty for a name, absent name, ids listed "
-             "under a name they do not belong to); the "
+             "under a name they do not belong to; one case per worker with 500-1000 ids under "
+             "one name); a quarter of the traces have all spans starting at the same instant; "
+             "the "
              "nested generators are consumed the way the sequencer does; every third case also "
              "pipes a store that still holds broken traces (dangling parents, mixed names) "
              "through the real sequence_otel_job_id_streams. distinct non-trivial "
